@@ -157,7 +157,9 @@ def rule_optmap(text, fn_name, log):
     f = hits[0]
     m = re.search(r'\.map\s*\(\s*\|\s*(\w+)\s*\|', msk[f.body_open:f.body_close])
     if not m:
-        raise ExtractError('R-optmap: no `.map(|x| ..)` in %s' % fn_name)
+        # the function no longer uses Option::map (e.g. it was rewritten with an explicit match): nothing to rewrite
+        log.rule('R-optmap', '%s: no `.map(|x| ..)` (nothing to rewrite)' % fn_name)
+        return text
     map_pos = f.body_open + m.start()
     paren = text.index('(', map_pos)
     pclose = rs.match_close(msk, paren)
@@ -181,7 +183,8 @@ def rule_optmap_ident(text, fn_name, ident, log):
     f = hits[0]
     m = re.compile(r'\b%s\s*\.map\s*\(\s*\|\s*(\w+)\s*\|' % re.escape(ident)).search(msk, f.body_open, f.body_close)
     if not m:
-        raise ExtractError('R-optmap: no `%s.map(|x| ..)` in %s' % (ident, fn_name))
+        log.rule('R-optmap', '%s: no `%s.map(|x| ..)` (nothing to rewrite)' % (fn_name, ident))
+        return text
     paren = text.index('(', m.start())
     pclose = rs.match_close(msk, paren)
     body = text[m.end():pclose]
@@ -654,6 +657,8 @@ def build_templates_unit(cfg, n, outdir):
     for k, v in log.rules.items():
         gen.log.rules[k] = gen.log.rules.get(k, 0) + v
     gen.log.undecided.update(log.undecided)
+    gen.log.uncontracted.extend(log.uncontracted)
+    gen.log.uncontracted_new.extend(log.uncontracted_new)
     gen.sources += ['src/iter.rs', 'macros/src/generate/query.rs']
     # props of the harness functions
     for f in gen.fns:
@@ -762,6 +767,8 @@ def build_world_unit(cfg, outdir, extra_tail=None, unit='world', n=2):
         gen.log.rules[k] = gen.log.rules.get(k, 0) + v
     gen.log.notes.extend(log.notes)
     gen.log.undecided.update(log.undecided)
+    gen.log.uncontracted.extend(log.uncontracted)
+    gen.log.uncontracted_new.extend(log.uncontracted_new)
     gen.sources += ['macros/src/generate/world.rs']
     specs = {}
     for fs in (fs_gen, fs_tr):
